@@ -168,6 +168,18 @@ CHECKS = {
         note='Trusted: tableschema Field.cast_value as the reference cast; the value catalogue. The dumper channel is limited to policies whose output a dumper can serialise and to types whose format it does not re-declare.',
         technique='TLA+ declarative-vs-loop model of the error policy checked with TLC; every exported case replayed through four real validator entry points',
         design='6/C14', specs=['ProcValidate.tla']),
+    'C17': dict(
+        level='model_checking',
+        text='ProcRows.tla defines filter_rows (any-of equals / any-of not_equals / callable), deduplicate (first row per distinct '
+             'primary-key tuple, nulls as key values, idempotent) and unpivot (per row, per specification entry, per matching field in schema '
+             'order: kept fields + derived key + cell; literal and regex names, constant / whole-match / group back-reference keys) and TLC '
+             'checks FilterOK (subsequence), DedupOK and CellConservation on every case: all tables of <=2 (quick) / <=3 rows over a row '
+             'domain chosen to contain hash-colliding key values (-1, -2), nulls and a field that only prefix-matches the unpivot regex. '
+             'Every exported case is run on the real processors (regex on/off, dedup applied twice, merged condition dicts); 400/6000 '
+             'seeded random tables of <=14 rows are recorded and judged by the definitions in TLC (RowsTrace.tla).',
+        note='Trusted: value projection (row.get, missing = null). The unpivot pattern family is literal names plus the one-group regex x(.).',
+        technique='TLA+ definitions model-checked with TLC; every exported case replayed; recorded random runs judged by the TLA+ definitions',
+        design='6/C17', specs=['ProcRows.tla', 'RowsTrace.tla']),
 }
 
 NOT_YET = 'check not built yet (build in progress, see DESIGN.md section 10)'
